@@ -31,7 +31,15 @@
      look.  This is the schedule [AReadBegin rid; AClose] of the LTS: AClose emits the same calls
      either way and does not touch [armed].  The window is open from the last C record of Close
      until a record shows that Close has released connMutex (any later L C S W SN WC CL2 HN) or
-     that closeChan is closed (a read returning closed). *)
+     that closeChan is closed (a read returning closed).
+   * Socket faults: the history names the sockets whose Close() is scripted to report an error
+     ([cerrs]; that is the model's [ce]).  Every C record carries what the socket's Close reported
+     and must agree with the boundary call the model emits ([OSockClose k (ce k)]).  CLR err is
+     appended by the caller of a Close that was started before any Close had returned, after it
+     returned: the one Close that did the closing must report exactly the value the model's AClose
+     returned (kept in the replay state until its CLR comes; it is an error iff currentConn's Close
+     failed), every other one found the conn closed and returns nil.  At the end of the log no
+     return value may be left unreported. *)
 From Hy Require Import lib.Harness model.C19_PortUnion model.C19_Hop.
 From Coq Require Import ZArith Bool.
 Local Open Scope N_scope.
@@ -62,7 +70,7 @@ Definition union_obs_ok (u : list range) (np : N) (ph : N * N) (probe : list N) 
 
 Inductive ev :=
 | EL (ok : bool) (id : nat) (r : nat)
-| EC (k : nat)
+| EC (k : nat) (err : bool)     (* socket k . Close() was called; err: it reported an error *)
 | ES (k : nat) (kd : setkind) (v : Z)
 | EW (k : nat) (port : N) (d : N)
 | EA (k : nat) (p : N)
@@ -73,13 +81,14 @@ Inductive ev :=
 | EWC
 | ESN (prev : option nat) (cur : nat) (idx : nat) (closed : bool) (qlen : option nat) (nopen : nat)
 | EHN
-| ECL2.
+| ECL2
+| ECR (err : bool).              (* a Close started before any Close had returned has returned err / nil *)
 
 Inductive case :=
 | CPU (s : list byte) (exp : option (list range)) (np : N) (ph : N * N) (probe : list N) (cont : list bool)
 | CNorm (u : list range) (exp : list range) (np : N) (ph : N * N) (probe : list N) (cont : list bool)
 | CIval (mn mx : Z) (err : bool) (nmin nmax : Z) (draws : list Z)
-| CHop (expr : list byte) (ctor_ok : bool) (r0 : nat) (evs : list ev) (census : list (bool * N)).
+| CHop (expr : list byte) (ctor_ok : bool) (r0 : nat) (cerrs : list nat) (evs : list ev) (census : list (bool * N)).
 
 Definition kd_eqb (a b : setkind) : bool :=
   match a, b with
@@ -89,7 +98,7 @@ Definition kd_eqb (a b : setkind) : bool :=
 
 Definition ret_eqb (a b : ret) : bool :=
   match a, b with
-  | RNil, RNil | RWrote, RWrote | RClosed, RClosed | RTimeout, RTimeout | RPanic, RPanic => true
+  | RNil, RNil | RWrote, RWrote | RClosed, RClosed | RTimeout, RTimeout | RPanic, RPanic | RSockErr, RSockErr => true
   | RPkt x, RPkt y => x =? y
   | _, _ => false
   end.
@@ -99,7 +108,7 @@ Definition locked_out (o : out) : bool := match o with ORet _ => false | _ => tr
 Definition ev_matches (e : ev) (o : out) : bool :=
   match e, o with
   | EL ok _ _, OListen ok' => Bool.eqb ok ok'
-  | EC k, OSockClose k' => Nat.eqb k k'
+  | EC k e, OSockClose k' e' => Nat.eqb k k' && Bool.eqb e e'
   | ES k kd v, OSockSet k' kd' v' => Nat.eqb k k' && kd_eqb kd kd' && (v =? v')%Z
   | EW k p d, OSockWrite k' p' d' => Nat.eqb k k' && (p =? p') && (d =? d')
   | _, _ => false
@@ -115,65 +124,75 @@ Definition opt_nat_eqb (a b : option nat) : bool :=
 Definition count_open (l : list sock) : nat := length (filter s_open l).
 
 (* replay state: model state; the locked section in progress with the number of its boundary
-   calls already seen; whether the closing window (see above) is open *)
-Definition rstate : Type := (st * option (action * nat) * bool)%type.
+   calls already seen; whether the closing window (see above) is open; the value returned by the
+   Close that did the closing, until its caller's CLR record has been seen *)
+Definition rstate : Type := (st * option (action * nat) * bool * option ret)%type.
 
-Definition locked (ps : list N) (s : st) (pend : option (action * nat)) (e : ev) (a0 : action) : option rstate :=
+Definition ret_of_outs (outs : list out) : option ret :=
+  match filter (fun o => negb (locked_out o)) outs with
+  | [ORet r] => Some r
+  | _ => None
+  end.
+
+Definition locked (ps : list N) (ce : nat -> bool) (s : st) (pend : option (action * nat)) (cr : option ret)
+                  (e : ev) (a0 : action) : option rstate :=
   let '(a, n) := match pend with Some an => an | None => (a0, O) end in
-  let '(s', outs) := step ps s a in
+  let '(s', outs) := step ps ce s a in
   let em := filter locked_out outs in
   match nth_error em n with
   | Some o =>
       if ev_matches e o
       then Some (if Nat.eqb (S n) (length em)
-                 then (s', None, closed s' && negb (closed s))   (* last record of Close opens the window *)
-                 else (s, Some (a, S n), false))
+                 then if closed s' && negb (closed s)
+                      then (s', None, true, ret_of_outs outs)      (* last record of Close opens the window *)
+                      else (s', None, false, cr)
+                 else (s, Some (a, S n), false, cr))
       else None
   | None => None
   end.
 
-Definition unlocked_step (ps : list N) (s : st) (a : action) (expect : list out) : option st :=
-  let '(s', outs) := step ps s a in
+Definition unlocked_step (ps : list N) (ce : nat -> bool) (s : st) (a : action) (expect : list out) : option st :=
+  let '(s', outs) := step ps ce s a in
   match outs, expect with
   | [], [] => Some s'
   | [ORet r], [ORet r'] => if ret_eqb r r' then Some s' else None
   | _, _ => None
   end.
 
-Definition rstep (ps : list N) (rs : rstate) (e : ev) : option rstate :=
-  let '(s, pend, cw) := rs in
+Definition rstep (ps : list N) (ce : nat -> bool) (rs : rstate) (e : ev) : option rstate :=
+  let '(s, pend, cw, cr) := rs in
   match e with
   | EL ok id r =>
       match pend with
       | Some _ => None                               (* a listen never comes inside another section *)
-      | None => if negb ok || Nat.eqb id (length (socks s)) then locked ps s pend e (AHop ok r) else None
+      | None => if negb ok || Nat.eqb id (length (socks s)) then locked ps ce s pend cr e (AHop ok r) else None
       end
-  | EC k => locked ps s pend e AClose
-  | ES k kd v => locked ps s pend e (ASet kd v)
-  | EW k p d => match pend with Some _ => None | None => locked ps s pend e (AWrite d) end
-  | EA k p => match unlocked_step ps s (AArrive k p) [] with Some s' => Some (s', pend, cw) | None => None end
-  | ET k => match unlocked_step ps s (AArriveTimeout k) [] with Some s' => Some (s', pend, cw) | None => None end
+  | EC k err => locked ps ce s pend cr e AClose
+  | ES k kd v => locked ps ce s pend cr e (ASet kd v)
+  | EW k p d => match pend with Some _ => None | None => locked ps ce s pend cr e (AWrite d) end
+  | EA k p => match unlocked_step ps ce s (AArrive k p) [] with Some s' => Some (s', pend, cw, cr) | None => None end
+  | ET k => match unlocked_step ps ce s (AArriveTimeout k) [] with Some s' => Some (s', pend, cw, cr) | None => None end
   | ED k =>
       if negb (sock_open (socks s) k) ||
-         match pend with Some (a, _) => negb (sock_open (socks (fst (step ps s a))) k) | None => false end
+         match pend with Some (a, _) => negb (sock_open (socks (fst (step ps ce s a))) k) | None => false end
       then Some rs else None
   | ERS rid =>
       (* the call's closed-first check happens after this entry; placing it here when the conn is
          still open is one of the schedules of the LTS and leaves both later outcomes possible *)
       if closed s then
-        if cw then Some (with_armed s (rid :: armed s), pend, cw)   (* [AReadBegin rid] scheduled before [AClose] *)
+        if cw then Some (with_armed s (rid :: armed s), pend, cw, cr)   (* [AReadBegin rid] scheduled before [AClose] *)
         else Some rs
-      else match unlocked_step ps s (AReadBegin rid) [] with Some s' => Some (s', pend, cw) | None => None end
+      else match unlocked_step ps ce s (AReadBegin rid) [] with Some s' => Some (s', pend, cw, cr) | None => None end
   | ER rid r =>
       let cw' := cw && negb (ret_eqb r RClosed) in
       if existsb (Nat.eqb rid) (armed s)
-      then match unlocked_step ps s (AReadSelect rid (ret_eqb r RClosed)) [ORet r] with
-           | Some s' => Some (s', pend, cw') | None => None end
-      else match unlocked_step ps s (AReadBegin rid) [ORet r] with
-           | Some s' => Some (s', pend, cw') | None => None end
+      then match unlocked_step ps ce s (AReadSelect rid (ret_eqb r RClosed)) [ORet r] with
+           | Some s' => Some (s', pend, cw', cr) | None => None end
+      else match unlocked_step ps ce s (AReadBegin rid) [ORet r] with
+           | Some s' => Some (s', pend, cw', cr) | None => None end
   | EWC =>
       (* WriteTo found the conn closed (accepted only if the model's conn is closed) *)
-      match unlocked_step ps s (AWrite 0) [ORet RClosed] with Some s' => Some (s', pend, false) | None => None end
+      match unlocked_step ps ce s (AWrite 0) [ORet RClosed] with Some s' => Some (s', pend, false, cr) | None => None end
   | ESN p c i cl q no =>
       match pend with
       | Some _ => None
@@ -181,26 +200,40 @@ Definition rstep (ps : list N) (rs : rstate) (e : ev) : option rstate :=
           if opt_nat_eqb p (prev s) && Nat.eqb c (cur s) && Nat.eqb i (idx s) && Bool.eqb cl (closed s) &&
              match q with Some n => Nat.eqb n (length (queue s)) | None => true end &&
              Nat.eqb no (count_open (socks s))
-          then Some (s, None, false) else None
+          then Some (s, None, false, cr) else None
       end
   | EHN =>
       (* a hop that found the conn closed: no boundary call at all *)
       if closed s then
-        match step ps s (AHop true 0) with (s', []) => Some (s', pend, false) | _ => None end
+        match step ps ce s (AHop true 0) with (s', []) => Some (s', pend, false, cr) | _ => None end
       else None
   | ECL2 =>
       (* a Close that found the conn closed *)
-      match unlocked_step ps s AClose [ORet RNil] with
-      | Some s' => if closed s then Some (s', pend, false) else None
+      match unlocked_step ps ce s AClose [ORet RNil] with
+      | Some s' => if closed s then Some (s', pend, false, cr) else None
       | None => None end
+  | ECR err =>
+      (* a Close has returned, so the conn is closed.  Either it is the Close that did the closing: the value
+         the model's AClose returned (an error iff currentConn's Close failed) must be the one reported, once;
+         or it found the conn closed: the model's AClose on a closed conn returns nil *)
+      if negb (closed s) then None
+      else
+        let r := if err then RSockErr else RNil in
+        match cr with
+        | Some r0 => if ret_eqb r0 r then Some (s, pend, false, None)
+                     else match unlocked_step ps ce s AClose [ORet r] with
+                          | Some s' => Some (s', pend, false, cr) | None => None end
+        | None => match unlocked_step ps ce s AClose [ORet r] with
+                  | Some s' => Some (s', pend, false, cr) | None => None end
+        end
   end.
 
 (* returns the index of the first rejected event (Some i) or the final state *)
-Fixpoint replay (ps : list N) (rs : rstate) (i : nat) (l : list ev) : rstate + nat :=
+Fixpoint replay (ps : list N) (ce : nat -> bool) (rs : rstate) (i : nat) (l : list ev) : rstate + nat :=
   match l with
   | [] => inl rs
-  | e :: t => match rstep ps rs e with
-              | Some rs' => replay ps rs' (S i) t
+  | e :: t => match rstep ps ce rs e with
+              | Some rs' => replay ps ce rs' (S i) t
               | None => inr i
               end
   end.
@@ -212,15 +245,17 @@ Fixpoint census_eqb (a : list sock) (b : list (bool * N)) : bool :=
   | _, _ => false
   end.
 
-Definition hop_check (expr : list byte) (ctor_ok : bool) (r0 : nat) (evs : list ev)
+Definition ce_of (cerrs : list nat) (k : nat) : bool := existsb (Nat.eqb k) cerrs.
+
+Definition hop_check (expr : list byte) (ctor_ok : bool) (r0 : nat) (cerrs : list nat) (evs : list ev)
                      (census : list (bool * N)) : bool :=
   match hop_ports expr with
   | None => false
   | Some ps =>
       match init ps ctor_ok r0 with
       | Ok s0 =>
-          match replay ps (s0, None, false) 0 evs with
-          | inl (s, None, _) => census_eqb (socks s) census
+          match replay ps (ce_of cerrs) (s0, None, false, None) 0 evs with
+          | inl (s, None, _, None) => census_eqb (socks s) census    (* no section and no return value left open *)
           | _ => false
           end
       | Err _ => negb ctor_ok && match evs, census with [], [] => true | _, _ => false end
@@ -229,11 +264,11 @@ Definition hop_check (expr : list byte) (ctor_ok : bool) (r0 : nat) (evs : list 
   end.
 
 (* for diagnosis in replays: where the log is rejected *)
-Definition hop_reject_at (expr : list byte) (ctor_ok : bool) (r0 : nat) (evs : list ev) : option nat :=
+Definition hop_reject_at (expr : list byte) (ctor_ok : bool) (r0 : nat) (cerrs : list nat) (evs : list ev) : option nat :=
   match hop_ports expr with
   | None => Some O
   | Some ps => match init ps ctor_ok r0 with
-               | Ok s0 => match replay ps (s0, None, false) 0 evs with inr i => Some i | inl _ => None end
+               | Ok s0 => match replay ps (ce_of cerrs) (s0, None, false, None) 0 evs with inr i => Some i | inl _ => None end
                | _ => None
                end
   end.
@@ -265,7 +300,7 @@ Definition check (c : case) : bool :=
       | None => err
       | Some (a, b) => negb err && (a =? nmin)%Z && (b =? nmax)%Z && forallb (draw_ok a b) draws
       end
-  | CHop expr ctor_ok r0 evs census => hop_check expr ctor_ok r0 evs census
+  | CHop expr ctor_ok r0 cerrs evs census => hop_check expr ctor_ok r0 cerrs evs census
   end.
 
 Definition mismatches (l : list case) : list nat := mism_from check 0 l.
@@ -275,20 +310,20 @@ Definition mismatches (l : list case) : list nat := mism_from check 0 l.
    (here a SetDeadline racing a WriteTo / Close / hop on a closed conn): accepted.  The same
    records while the conn is still open: rejected. *)
 Example accept_late_returns_inside_a_section :
-  hop_check [x34;x34;x33] true 0%nat
-    [EL true 1%nat 0%nat; EC 0%nat; EC 1%nat;
-     ES 0%nat SDL 0%Z; EWC; ECL2; EHN; ES 1%nat SDL 0%Z]
+  hop_check [x34;x34;x33] true 0%nat []
+    [EL true 1%nat 0%nat; EC 0%nat false; EC 1%nat false;
+     ES 0%nat SDL 0%Z; EWC; ECL2; EHN; ECR false; ES 1%nat SDL 0%Z]
     [(false, 1); (false, 1)] = true.
 Proof. vm_compute. reflexivity. Qed.
 
 Example reject_closed_returns_on_an_open_conn :
-  map (fun e => hop_check [x34;x34;x33] true 0%nat [EL true 1%nat 0%nat; ES 0%nat SDL 0%Z; e; ES 1%nat SDL 0%Z]
+  map (fun e => hop_check [x34;x34;x33] true 0%nat [] [EL true 1%nat 0%nat; ES 0%nat SDL 0%Z; e; ES 1%nat SDL 0%Z]
                           [(true, 0); (true, 0)])
       [EWC; ECL2; EHN; EA 0%nat 7] = [false; false; false; true].
 Proof. vm_compute. reflexivity. Qed.
 
 Example reject_section_with_a_missing_or_foreign_record :
-  map (fun l => hop_check [x34;x34;x33] true 0%nat (EL true 1%nat 0%nat :: EC 0%nat :: EC 1%nat :: l)
+  map (fun l => hop_check [x34;x34;x33] true 0%nat [] (EL true 1%nat 0%nat :: EC 0%nat false :: EC 1%nat false :: l ++ [ECR false])
                           [(false, 1); (false, 1)])
       [[ES 0%nat SDL 0%Z; EWC]; [ES 0%nat SDL 0%Z; EWC; ES 1%nat SRDL 0%Z];
        [ES 0%nat SDL 0%Z; EWC; EW 1%nat 443 0]; [ES 0%nat SDL 0%Z; EWC; ES 1%nat SDL 0%Z]]
@@ -298,7 +333,7 @@ Proof. vm_compute. reflexivity. Qed.
 (* closing window: a ReadFrom started right after Close's last socket call may still get a queued
    packet; once anything shows that Close is over, it must return closed *)
 Example closing_window :
-  map (fun l => hop_check [x34;x34;x33] true 0%nat (EA 0%nat 7 :: EC 0%nat :: l) [(false, 1)])
+  map (fun l => hop_check [x34;x34;x33] true 0%nat [] (EA 0%nat 7 :: EC 0%nat false :: l ++ [ECR false]) [(false, 1)])
       [[ERS 0%nat; ER 0%nat (RPkt 7)];
        [ERS 0%nat; ER 0%nat RClosed];
        [EWC; ERS 0%nat; ER 0%nat (RPkt 7)];
@@ -306,4 +341,24 @@ Example closing_window :
        [ERS 0%nat; ER 0%nat RClosed; ERS 1%nat; ER 1%nat (RPkt 7)];
        [EWC; ERS 0%nat; ER 0%nat RClosed]]
   = [true; true; false; false; false; true].
+Proof. vm_compute. reflexivity. Qed.
+
+(* socket faults (one successful hop; Close has to close prev = 0 and cur = 1): Close returns cur's
+   error and drops prev's; its return value is reported exactly once; a Close that stops after a
+   failing socket (no second C record) is rejected; a record that disagrees with the script is
+   rejected *)
+Example close_faults :
+  map (fun cl => hop_check [x34;x34;x33] true 0%nat (fst cl) (EL true 1%nat 0%nat :: snd cl) [(false, 1); (false, 1)])
+      [([1%nat], [EC 0%nat false; EC 1%nat true; ECR true]);
+       ([1%nat], [EC 0%nat false; EC 1%nat true; ECR false]);
+       ([0%nat], [EC 0%nat true; EC 1%nat false; ECR false]);
+       ([0%nat], [EC 0%nat true; EC 1%nat false; ECR true]);
+       ([0%nat], [EC 0%nat true; ECR true]);
+       ([0%nat; 1%nat], [EC 0%nat true; EC 1%nat true; ECR false; ECR true; ECL2]);
+       ([0%nat; 1%nat], [EC 0%nat true; EC 1%nat true; ECR true; ECR true]);
+       ([1%nat], [EC 0%nat false; EC 1%nat true]);
+       ([1%nat], [EC 0%nat false; EC 1%nat false; ECR false]);
+       ([], [ECR false]);
+       ([], [EC 0%nat false; EC 1%nat false; ECR false; EHN; EWC])]
+  = [true; false; true; false; false; true; false; false; false; false; true].
 Proof. vm_compute. reflexivity. Qed.
